@@ -308,7 +308,7 @@ def main():
     # 6. offline checkers over the event logs
     py_stats = {}
     if cfg.get("python"):
-        ev_files = sorted(glob.glob(os.path.join(outdir, f"{prop}.*.events.jsonl")))
+        ev_files = sorted(glob.glob(os.path.join(outdir, f"{prop}.*.events.jsonl")) + glob.glob(os.path.join(outdir, "*", f"{prop}.*.events.jsonl")))
         pv, py_stats = cfg["python"](ev_files, tier, seed, outdir)
         for v in pv:
             v.setdefault("property", prop)
